@@ -541,7 +541,9 @@ def lifecycle():
     wgb = fn_body("core/src/runtime/waitgroup.rs", "wait")
     emit_nat("waitGroupRegistersBeforeCheck", 1 if re.search(r"notified\.as_mut\(\)\.enable\(\);.*?if self\.count\.load\(Ordering::Acquire\) == 0", wgb, re.S) else 0)
     clx = strip_comments(src("core/src/socket/core/command_loop.rs"))
-    emit_nat("commandLoopAnswersQueuedCommands", 1 if re.search(r"while let Ok\(cmd\) = command_receiver\.try_recv\(\) \{.*?Command::UserClose \{ reply_tx \} => \{\s*let _ = reply_tx\.send\(Ok\(\(\)\)\);.*?\}\s*drop\(command_receiver\);", clx, re.S) else 0)
+    emit_nat("commandLoopAnswersQueuedCommands", 1 if re.search(
+        r"while let Ok\(cmd\) = command_receiver\.recv\(\)\.await \{\s*answer_command_after_close\(cmd\);", clx)
+        and re.search(r"fn answer_command_after_close\(cmd: Command\) \{\s*match cmd \{\s*Command::UserClose \{ reply_tx \} => \{\s*let _ = reply_tx\.send\(Ok\(\(\)\)\);", clx) else 0)
     emit_nat("commandLoopUnregistersSocket", 1 if "context.inner().unregister_socket(core_handle)" in clx else 0)
     emit_nat("commandLoopUnregistersInprocNames", 1 if re.search(r"std::mem::take\(&mut core_s_guard\.bound_inproc_names\).*?unregister_inproc\(&name_val\)", clx, re.S) else 0)
     emit_nat("commandLoopStopsPatternAtExit", 1 if re.search(r"SocketCore loop exited.*?socket_logic_strong\.process_command\(Command::Stop\)\.await", src("core/src/socket/core/command_loop.rs"), re.S) else 0)
